@@ -537,7 +537,7 @@ dgsisx(superlu_options_t *options, SuperMatrix *A, int *perm_c, int *perm_r,
 	AA = A;
     }
 
-    if ( nofact ) {
+    if ( nofact && lwork != -1 ) { /* a size query leaves A as it is */
 	register int i, j;
 	NCformat *Astore = AA->Store;
 	int_t nnz = Astore->nnz;
@@ -627,6 +627,11 @@ dgsisx(superlu_options_t *options, SuperMatrix *A, int *perm_c, int *perm_r,
 
 	if ( lwork == -1 ) {
 	    mem_usage->total_needed = *info - A->ncol;
+	    Destroy_CompCol_Permuted(&AC);
+	    if ( A->Stype == SLU_NR ) {
+		Destroy_SuperMatrix_Store(AA);
+		SUPERLU_FREE(AA);
+	    }
 	    return;
 	}
 
